@@ -16,12 +16,14 @@ Keys == {"title", "id", "version", "name", "instance_name", "submission_url", "p
          "style", "namespaces", "attr_plain", "attr_ns", "omit_id", "instance_xmlns", "prefix", "delimiter"}
 Valid(S) == /\ ~({"omit_id", "public_key"} \subseteq S)        \* refused by the converter: instanceID is required for encryption
             /\ ("attr_ns" \in S => "namespaces" \in S)          \* a prefixed attribute needs its prefix declared
-VARIABLES on, chan, fname, phase
-svars == <<on, chan, fname, phase>>
-SInit == on = {} /\ chan \in {"mem", "path"} /\ fname \in BOOLEAN /\ phase \in {"few", "most"}
+VARIABLES on, chan, fname, ent, phase
+svars == <<on, chan, fname, ent, phase>>
+\* chan: in-memory | a path with a recognised suffix | a path whose suffix gives no hint (upper case, .txt, none)
+\* ent: the workbook also has an entities sheet (the entities namespace joins the declared ones)
+SInit == on = {} /\ chan \in {"mem", "path", "path_odd"} /\ fname \in BOOLEAN /\ ent \in BOOLEAN /\ phase \in {"few", "most"}
 \* "few": at most MaxOn settings present;  "most": all but at most MaxOn present
 Toggle(k) == /\ Cardinality(on) < MaxOn /\ k \notin on /\ \A j \in on : j \in Keys   \* canonical order not needed: sets
-             /\ on' = on \cup {k} /\ UNCHANGED <<chan, fname, phase>>
+             /\ on' = on \cup {k} /\ UNCHANGED <<chan, fname, ent, phase>>
 SNext == \E k \in Keys : Toggle(k)
 SSpec == SInit /\ [][SNext]_svars
 Present == IF phase = "few" THEN on ELSE Keys \ on
@@ -31,7 +33,7 @@ CaseOK == Valid(Present)
 \* src: [present: set of keys as sequence, val: key -> atom (function as sequence of pairs), chan, stem, fname (""|name)]
 Val(src, k) == LET S == {i \in 1..Len(src.vals) : src.vals[i][1] = k} IN IF S = {} THEN "" ELSE src.vals[CHOOSE i \in S : TRUE][2]
 Has(src, k) == \E i \in 1..Len(src.vals) : src.vals[i][1] = k
-ExpId(src) == IF Has(src, "id") THEN Val(src, "id") ELSE IF src.chan = "path" THEN src.stem ELSE "data"
+ExpId(src) == IF Has(src, "id") THEN Val(src, "id") ELSE IF src.chan \in {"path", "path_odd"} THEN src.stem ELSE "data"
 ExpTitle(src) == IF Has(src, "title") THEN Val(src, "title") ELSE ExpId(src)
 ExpRoot(src) == IF Has(src, "name") THEN Val(src, "name") ELSE IF src.fname # "" THEN src.fname ELSE "data"
 Opt(src, k) == IF Has(src, k) THEN Val(src, k) ELSE ""      \* "" = attribute / element absent
